@@ -45,12 +45,27 @@ func VH_C11_DetachedArray() {
 		vhAssert(err == nil, "setup: lookup child")
 		h = v.(*Array)
 	}
-	// detach: remove or overwrite
+	// detach: remove, overwrite, or bulk pop of the whole parent
 	var detached Storable
-	if vhChoose("detach", 2) == 0 {
+	popped := false
+	switch vhChoose("detach", 3) {
+	case 2:
+		// bulk pop: the child is handed to the callback (an inlined child as
+		// the inlined slab itself); the former parent is empty afterwards and
+		// must stay so whatever is done through the old handle
+		err = parent.PopIterate(func(s Storable) {
+			if _, ok := s.(SlabIDStorable); ok && SlabID(s.(SlabIDStorable)) != h.SlabID() {
+				vhDispose(storage, s)
+			}
+		})
+		vhAssert(err == nil, "detach by bulk pop")
+		pm = nil
+		childIdx = 0
+		popped = true
+	case 0:
 		detached, err = parent.Remove(childIdx)
 		vhAssert(err == nil, "detach by remove")
-	} else {
+	default:
 		detached, err = parent.Set(childIdx, vElem{tag: 3, size: vhRange32("sibsz", 1, 117)})
 		vhAssert(err == nil, "detach by overwrite")
 		pm = append(append(append([]uint64{}, pm[:childIdx]...), 3), pm[childIdx:]...)
@@ -59,9 +74,11 @@ func VH_C11_DetachedArray() {
 		return
 	}
 	sid, isRef := detached.(SlabIDStorable)
-	vhAssert(isRef, "detached child is handed back as an independently stored value")
-	if !isRef {
-		return
+	if !popped {
+		vhAssert(isRef, "detached child is handed back as an independently stored value")
+		if !isRef {
+			return
+		}
 	}
 	parentRoot := parent.root.SlabID()
 	for op := 0; op < nops; op++ {
@@ -124,8 +141,14 @@ func VH_C11_DetachedArray() {
 			}
 		}
 	}
-	// the detached child is an intact, independently stored value with unchanged identity
 	vhAssert(h.ValueID() == childVID, "detached child keeps its value id")
+	if popped {
+		// a popped inlined child is handed out as the inlined slab; what the
+		// caller does with it is outside this property
+		vhReach("detached-done")
+		return
+	}
+	// the detached child is an intact, independently stored value with unchanged identity
 	vhAssert(!h.Inlined(), "detached child is standalone")
 	re, err := NewArrayWithRootID(storage, SlabID(sid))
 	vhAssert(err == nil, "detached child reloadable by its identifier")
@@ -186,7 +209,15 @@ func VH_C11_DetachedFromMap() {
 	var detached Storable
 	var repl *Array
 	present := true
-	switch vhChoose("detach", 4) {
+	otherPresent := true
+	popped := false
+	switch vhChoose("detach", 5) {
+	case 4: // bulk pop of the whole parent
+		err = parent.PopIterate(func(k Storable, v Storable) {})
+		vhAssert(err == nil, "detach by bulk pop")
+		present = false
+		otherPresent = false
+		popped = true
 	case 0: // remove the key
 		_, detached, err = parent.Remove(vhCompare, vhHip, key)
 		vhAssert(err == nil, "detach by remove")
@@ -204,9 +235,11 @@ func VH_C11_DetachedFromMap() {
 		return
 	}
 	sid, isRef := detached.(SlabIDStorable)
-	vhAssert(isRef, "detached child is handed back as an independently stored value")
-	if !isRef {
-		return
+	if !popped {
+		vhAssert(isRef, "detached child is handed back as an independently stored value")
+		if !isRef {
+			return
+		}
 	}
 	for op := 0; op < nops; op++ {
 		sizeBefore := parent.root.Header().size
@@ -253,9 +286,18 @@ func VH_C11_DetachedFromMap() {
 			}
 		}
 		sv, serr := parent.Get(vhCompare, vhHip, other)
-		vhAssert(serr == nil && vhTagOf(sv) == 77, "sibling entry unchanged")
+		if otherPresent {
+			vhAssert(serr == nil && vhTagOf(sv) == 77, "sibling entry unchanged")
+		} else {
+			vhAssert(vhIsKeyNotFound(serr), "popped sibling stays absent")
+			vhAssert(parent.Count() == 0, "emptied former parent stays empty")
+		}
 	}
 	vhAssert(h.ValueID() == childVID, "detached child keeps its value id")
+	if popped {
+		vhReach("detached-done")
+		return
+	}
 	vhAssert(!h.Inlined(), "detached child is standalone")
 	re, rerr := NewArrayWithRootID(storage, SlabID(sid))
 	vhAssert(rerr == nil, "detached child reloadable by its identifier")
